@@ -1166,7 +1166,11 @@ func checkSharedListImmutable(c *Ctx, rule string, healthy *ssa.Function, elemSu
 					continue
 				}
 				args := ed.Site.Common().Args
-				if idx < len(args) && fromSnap(args[idx], d+1) {
+				k := idx
+				if ed.Site.Common().IsInvoke() {
+					k = idx - 1 // interface calls carry the receiver apart from the arguments
+				}
+				if k >= 0 && k < len(args) && fromSnap(args[k], d+1) {
 					return true
 				}
 			}
